@@ -100,13 +100,13 @@ fn serialize_list(arr: &[Primitive], out: &mut impl io::Write) -> Result<()> {
 
 pub fn serialize_name(s: &str, out: &mut impl io::Write) -> Result<()> {
     write!(out, "/")?;
-    for b in s.chars() {
+    for &b in s.as_bytes() {
         match b {
-            '\\' | '(' | ')' => write!(out, r"\")?,
-            c if c > '~' => panic!("only ASCII"),
-            _ => ()
+            // regular characters other than the escape character itself are written as they are
+            b'!' ..= b'~' if !b"()<>[]{}/%#".contains(&b) => out.write_all(&[b])?,
+            // everything else (white-space, delimiters, '#', control and non-ASCII bytes) as #xx
+            _ => write!(out, "#{:02X}", b)?,
         }
-        write!(out, "{}", b)?;
     }
     Ok(())
 }
@@ -202,7 +202,8 @@ impl Dictionary {
     fn serialize(&self, out: &mut impl io::Write) -> Result<()> {
         writeln!(out, "<<")?;
         for (key, val) in self.iter() {
-            write!(out, "{} ", key)?;
+            serialize_name(key.as_str(), out)?;
+            write!(out, " ")?;
             val.serialize(out)?;
             writeln!(out)?;
         }
